@@ -25,6 +25,8 @@ Proof. intros E (p & HP & F). exists p. split; auto. eapply feq_trans; [apply fe
 Lemma ctr_ext m n A B : feq m n A B -> feq n m (ctr 0 A) (ctr 0 B).
 Proof. intros E i j Hi Hj. unfold ctr. rewrite E; auto. Qed.
 
+Lemma mmul_ext_all k (A B B' : fm) i j : (forall l c, B l c = B' l c) -> mmul k A B i j = mmul k A B' i j.
+Proof. intros H. unfold mmul. apply sum_ext. intros l Hl. rewrite H. reflexivity. Qed.
 (* ---------- Kronecker products ---------- *)
 Definition ctrfac (X : fac) : fac := mkfac (fc X) (fr X) (ctr 0 (fmx X)).
 Lemma kron2_ctr (X Y : fac) i j : ctr 0 (fmx (kron2 X Y)) i j = fmx (kron2 (ctrfac X) (ctrfac Y)) i j.
@@ -89,7 +91,7 @@ Proof. induction 1 as [|L A Ls As (Sq & Pos & E1 & E2 & LL & F) HF IH]; [exact c
   - apply (kron2_lower L (kronR Ls) a N); auto.
   - intros i j Hi Hj.
     transitivity (mmul (a * N) (fmx (kron2 L (kronR Ls))) (fmx (kron2 (ctrfac L) (ctrfac (kronR Ls)))) i j).
-    { unfold mmul. apply sum_ext. intros l Hl. rewrite kron2_ctr. reflexivity. }
+    { apply mmul_ext_all. intros l c. apply kron2_ctr. }
     pose proof (kron2_mixed L (kronR Ls) (ctrfac L) (ctrfac (kronR Ls)) i j) as M. cbn [ctrfac fr fc] in M. rewrite E2, E2' in M. fold a N in M.
     rewrite M by auto.
     apply (kron2_ext (fmul L (ctrfac L)) A (fmul (kronR Ls) (ctrfac (kronR Ls))) (kronR As) a a N N); auto; cbn [fmul ctrfac fr fc fmx]; try congruence.
@@ -115,16 +117,17 @@ Proof. induction 1 as [|[[P L] U] A Ts As H HF IH].
     destruct IH as (Sq' & Pos' & P1' & P2' & L1' & L2' & U1' & U2' & PP' & LL' & UU' & F').
     set (Ps := kronR (map fst3 Ts)) in *. set (Ls := kronR (map snd3 Ts)) in *. set (Us := kronR (map thd3 Ts)) in *.
     set (N := fr (kronR As)) in *. set (a := fr A) in *.
-    cbn [kronR kron2 fr fc]. fold N a. rewrite Sq, Sq', P1, P2, L1, L2, U1, U2, P1', P2', L1', L2', U1', U2'.
+    cbn [kronR kron2 fr fc]. fold N a. rewrite ?Sq, ?Sq', ?P1, ?P2, ?L1, ?L2, ?U1, ?U2, ?P1', ?P2', ?L1', ?L2', ?U1', ?U2'.
     repeat split; auto; try nia.
     + apply (kron2_permmat P Ps a N); auto.
     + apply (kron2_lower L Ls a N); auto.
     + apply (kron2_upper U Us a N); auto.
     + intros i j Hi Hj.
       transitivity (mmul (a * N) (fmx (kron2 P Ps)) (fmx (kron2 (fmul L U) (fmul Ls Us))) i j).
-      { unfold mmul. apply sum_ext. intros l Hl. f_equal.
-        pose proof (kron2_mixed L Ls U Us l j) as M. rewrite L2, L2', U1' in M. rewrite M by auto. reflexivity. }
-      pose proof (kron2_mixed P Ps (fmul L U) (fmul Ls Us) i j) as M. cbn [fmul fr fc] in M. rewrite P2, P2', L1' in M. rewrite M by auto.
+      { apply mmul_ext_all. intros l c.
+        pose proof (kron2_mixed L Ls U Us l c) as M. rewrite L2, L2', U1' in M. apply M; auto. }
+      pose proof (kron2_mixed P Ps (fmul L U) (fmul Ls Us) i j) as M. cbn [fmul fr fc] in M. rewrite P2, P2', L1' in M.
+      transitivity (fmx (kron2 (fmul P (fmul L U)) (fmul Ps (fmul Ls Us))) i j); [apply M; auto|].
       apply (kron2_ext (fmul P (fmul L U)) A (fmul Ps (fmul Ls Us)) (kronR As) a a N N); auto; cbn [fmul fr fc fmx]; try congruence.
       * rewrite P2, L2. exact F.
       * rewrite P2', L2'. exact F'. Qed.
